@@ -1,11 +1,12 @@
 ---------------------------- MODULE IdentFields ----------------------------
 (* Validity of identity versions (entities/identity version.Validate, Identity.Validate), by classes of field values.
    A version must carry a name or a login; name, login and email must be free of control characters (one line);
-   the avatar must be empty or an URL; the nonce 20..64 bytes.  Along a chain no logical clock may decrease or be dropped. *)
+   the avatar must be empty or an URL; the nonce 20..64 bytes.  A name made of spaces (blank) or of characters that show
+   nothing (invisible: zero-width space, byte order mark, soft hyphen - format characters, not control characters) is no name.  Along a chain no logical clock may decrease or be dropped. *)
 EXTENDS Integers, Sequences, TLC, Json
 
-NameClasses   == {"empty", "blank", "ok", "unicode", "control", "multiline"}
-LoginClasses  == {"empty", "ok", "control"}
+NameClasses   == {"empty", "blank", "invisible", "ok", "unicode", "control", "multiline"}
+LoginClasses  == {"empty", "invisible", "ok", "control"}
 EmailClasses  == {"empty", "ok", "control"}
 AvatarClasses == {"empty", "url", "noturl", "multiline"}
 NonceClasses  == {"short", "ok", "long"}
